@@ -25,7 +25,8 @@ Shape(j) == [states |-> ToSet(j.states), first |-> j.first, default |-> j.defaul
 
 Unobs == -1000000       \* parameter not declared by the state function: not observed
 
-MonInit == [engSince |-> FALSE, iterReq |-> FALSE, depth |-> 0, icalls |-> 0, idone |-> FALSE, pend |-> FALSE, bad |-> ""]
+MonInit == [engSince |-> FALSE, iterReq |-> FALSE, depth |-> 0, icalls |-> 0, idone |-> FALSE, pend |-> FALSE, bad |-> "",
+            tainted |-> FALSE]
 
 TInit == /\ tid \in 1..NT /\ l = 1 /\ verdict = "" /\ vkind = "" /\ vnew = FALSE /\ seen = {} /\ mon = MonInit
          /\ Init(Shape(Batch[tid].shape))
@@ -35,16 +36,18 @@ CallsOf(cb) == SelectSeq(cb, LAMBDA x : x.e = "call")
 Kinds(cb) == [i \in 1..Len(cb) |-> IF cb[i].e = "call" THEN cb[i].s ELSE "<done>"]
 B2I(b) == IF b THEN 1 ELSE 0
 
+NDone(cb) == Len(SelectSeq(cb, LAMBDA x : x.e = "done"))
 Diffs(e, o, engAfter) ==
-    LET ec == CallsOf(e.cb)  oc == CallsOf(o.cb) IN
-    IF Len(ec) # Len(oc) THEN {"count"}
-    ELSE IF \E i \in 1..Len(ec) : ec[i].s # oc[i].s THEN {"names"}
-    ELSE
-      (IF Kinds(e.cb) # Kinds(o.cb) THEN {"done"} ELSE {})
-      \cup (IF \E i \in 1..Len(ec) : oc[i].ic # -1 /\ oc[i].ic # B2I(ec[i].ic) THEN {"ic"} ELSE {})
-      \cup (IF \E i \in 1..Len(ec) : oc[i].stm # Unobs /\ oc[i].stm # ec[i].stm THEN {"stm"} ELSE {})
-      \cup (IF \E i \in 1..Len(ec) : /\ oc[i].tm # Unobs /\ oc[i].tm # ec[i].tm
-                                     /\ ~(ec[i].s = sh.default /\ ~engAfter) THEN {"tm"} ELSE {})
+    LET ec == CallsOf(e.cb)  oc == CallsOf(o.cb)
+        same == Len(ec) = Len(oc) /\ \A i \in 1..Len(ec) : ec[i].s = oc[i].s
+    IN
+      (IF Len(ec) # Len(oc) THEN {"count"} ELSE IF ~same THEN {"names"} ELSE {})
+      \* done() invocations: their number always, their position among the calls when the calls agree
+      \cup (IF NDone(e.cb) # NDone(o.cb) \/ (same /\ Kinds(e.cb) # Kinds(o.cb)) THEN {"done"} ELSE {})
+      \cup (IF same /\ \E i \in 1..Len(ec) : oc[i].ic # -1 /\ oc[i].ic # B2I(ec[i].ic) THEN {"ic"} ELSE {})
+      \cup (IF same /\ \E i \in 1..Len(ec) : oc[i].stm # Unobs /\ oc[i].stm # ec[i].stm THEN {"stm"} ELSE {})
+      \cup (IF same /\ \E i \in 1..Len(ec) : /\ oc[i].tm # Unobs /\ oc[i].tm # ec[i].tm
+                                              /\ ~(ec[i].s = sh.default /\ ~engAfter) THEN {"tm"} ELSE {})
       \cup (IF e.exec # o.exec THEN {"exec"} ELSE {})
       \cup (IF e.cur # o.cur THEN {"cur"} ELSE {})
 
@@ -78,7 +81,9 @@ MonStep(ev, o) ==
         engS == IF ev.e \in {"engage", "aiter"} THEN TRUE ELSE mon.engSince
         iterStart == top /\ ev.e \in {"execute", "aiter"}
         ireq == IF iterStart THEN engS ELSE (mon.iterReq \/ ev.e = "engage")   \* engage() from a state function counts
-        depth1 == IF ev.e = "ret" THEN mon.depth - 1 ELSE mon.depth + Len(oc)
+        uncaught == ev.e = "raise" /\ ~ev.caught      \* the exception left the outermost execute()
+        depth1 == IF ev.e = "ret" \/ (ev.e = "raise" /\ ev.caught) THEN mon.depth - 1
+                  ELSE IF uncaught THEN 0 ELSE mon.depth + Len(oc)
         icalls1 == (IF iterStart THEN 0 ELSE mon.icalls) + Len(oc)
         iterEnd == (ev.e = "ret" /\ depth1 = 0) \/ (iterStart /\ Len(oc) = 0)
         \* a state function that selects a state after the machine stopped under it (done(), then next_state(x) /
@@ -90,13 +95,18 @@ MonStep(ev, o) ==
                  ELSE IF ~top /\ mon.idone /\ ev.e \in {"ns", "engage"} THEN TRUE
                  ELSE IF ~top /\ mon.idone /\ ev.e = "nsnow" THEN Len(oc) = 0
                  ELSE mon.pend
-        bad1 == IF \E i \in 1..Len(oc) : Regular(oc[i].s) /\ ~ireq THEN "mon:regular_without_engage"
+        \* once an exception has left execute() the properties no longer judge the history (MagicSM!Judged); the
+        \* lock-step comparison goes on
+        tainted1 == mon.tainted \/ uncaught
+        bad1 == IF tainted1 THEN ""
+                ELSE IF \E i \in 1..Len(oc) : Regular(oc[i].s) /\ ~ireq THEN "mon:regular_without_engage"
                 ELSE IF \E i \in 1..Len(oc) : (oc[i].tm # Unobs /\ oc[i].tm < 0) \/ (oc[i].stm # Unobs /\ oc[i].stm < 0)
                      THEN "mon:negative_time"
                 ELSE IF iterEnd /\ hasObs /\ icalls1 = 0 /\ (o.exec \/ (o.cur # "" /\ ~pend1)) THEN "mon:idle_not_reset"
                 ELSE ""
-    IN [engSince |-> IF iterEnd THEN FALSE ELSE engS, iterReq |-> ireq, depth |-> depth1,
-        icalls |-> icalls1, idone |-> idone1, pend |-> pend1, bad |-> bad1]
+    \* an exception that leaves execute() leaves the request of that iteration pending (as implemented, see Raise)
+    IN [engSince |-> IF iterEnd THEN FALSE ELSE IF uncaught THEN ireq ELSE engS, iterReq |-> ireq, depth |-> depth1,
+        icalls |-> icalls1, idone |-> idone1, pend |-> pend1, bad |-> bad1, tainted |-> tainted1]
 
 J(v) == ToJson(v)
 
